@@ -35,7 +35,7 @@ from __future__ import annotations
 
 import itertools
 import types
-from collections.abc import Hashable, Iterable, Iterator, MutableSet, Sequence
+from collections.abc import Collection, Hashable, Iterable, Iterator, MutableSet, Sequence
 from collections.abc import Set as AbstractSet
 from typing import Any, TypeVar, cast, get_args, overload
 
@@ -71,6 +71,8 @@ class _AbstractOrderedSet(AbstractSet[T], Sequence[T]):  # noqa: PLW1641
         """
         if isinstance(index, slice):
             raise NotImplementedError("Slicing currently not supported.")
+        if index < 0:
+            index += len(self._items)
         for i, key in enumerate(self._items.keys()):
             if i == index:
                 return key
@@ -186,9 +188,12 @@ class _AbstractOrderedSet(AbstractSet[T], Sequence[T]):  # noqa: PLW1641
         Returns:
             True, if this is a subset of other.
         """
+        if not isinstance(other, Collection):
+            # One-shot iterables can only be consumed once
+            other = tuple(other)
         try:
             # Fast check for obvious cases
-            if len(self) > len(other):  # type: ignore[arg-type]
+            if len(self) > len(other):
                 return False
         except TypeError:
             pass
@@ -229,8 +234,10 @@ class _AbstractOrderedSet(AbstractSet[T], Sequence[T]):  # noqa: PLW1641
             The symmetric difference.
         """
         cls = self.__class__
-        diff1 = cls(self).difference(other)
-        diff2 = cls(other).difference(self)
+        # Materialise once: `other` may be a one-shot iterable
+        other_set = cls(other)
+        diff1 = cls(self).difference(other_set)
+        diff2 = other_set.difference(self)
         return diff1.union(diff2)
 
 
@@ -296,8 +303,9 @@ class OrderedSet(_AbstractOrderedSet[T], MutableSet[T]):
         Args:
             other: The other set.
         """
-        items_to_add = [item for item in other if item not in self]
-        items_to_remove = cast("set[T]", set(other))
+        # Materialise once: `other` may be a one-shot iterable
+        items_to_remove = dict.fromkeys(other)
+        items_to_add = [item for item in items_to_remove if item not in self]
         self._items = {item: None for item in self._items if item not in items_to_remove}
         for item in items_to_add:
             self._items[item] = None
